@@ -27,53 +27,61 @@ def grow_scenarios(rng, tier):
     n = 0
     for fmt in [1, 2, 5]:
         for nrecvars in [1, 2]:
-            for delta in ["att_small", "att_big", "fixvar", "recvar", "both"]:
+            for delta in ["att_small", "att_big", "fixvar", "recvar", "both", "att_mid_recvar"]:
                 for np_, mu in [(1, None), (2, "64"), (3, "1000"), (4, "24")]:
-                    if tier == "quick" and rng.random() < 0.6:
-                        continue
-                    cm = ["CLOBBER"] + ([filegen.FMT[fmt]] if filegen.FMT[fmt] else [])
-                    O = filegen.OBS
-                    st = [{"op": "create", "path": "a.nc", "cmode": cm, "fmtno": fmt, "obs": ["exists"],
-                           "info": {"nc_header_align_size": "4", "nc_record_align_size": "4"} if n % 2 else None},
-                          {"op": "def_dim", "name": "t", "norm": "t", "len": 0}, {"op": "def_dim", "name": "x", "norm": "x", "len": 3},
-                          {"op": "def_dim", "name": "y", "norm": "y", "len": 5},
-                          {"op": "def_var", "name": "f1", "norm": "f1", "xtype": "int", "dims": [2]},
-                          {"op": "def_var", "name": "r1", "norm": "r1", "xtype": "short", "dims": [0, 1]}]
-                    if nrecvars == 2:
-                        st.append({"op": "def_var", "name": "r2", "norm": "r2", "xtype": "double", "dims": [0, 2]})
-                    st.append({"op": "enddef", "want_h_align": 0, "want_r_align": 0})
-                    tr = filegen.Translator(rng, fmt=fmt, np=np_)
-                    tr.dims = [["t", 0], ["x", 3], ["y", 5]]
-                    tr.vars = [["f1", "int", [2]], ["r1", "short", [0, 1]]] + ([["r2", "double", [0, 2]]] if nrecvars == 2 else [])
-                    tr.mode = "data"
-                    tok = 1
-                    st.append(tr.put_step(0, 0, [tok + k for k in range(5)]))
-                    nrec = rng.choice([1, 3, 4])
-                    for r in range(nrec):
-                        tok += 10
-                        st.append(tr.put_step(1, r, [tok + k for k in range(3)]))
-                        if nrecvars == 2:
-                            st.append(tr.put_step(2, r, [tok + 5 + k for k in range(5)]))
-                    tr.numrecs = nrec
-                    st.append({"op": "redef"})
-                    if delta in ("att_small", "both"):
-                        st.append({"op": "put_att", "v": -1, "name": "g", "norm": "g", "xtype": "char", "itype": "text", "vals": "abcdefgh", "n": 8})
-                    if delta == "att_big":
-                        st.append({"op": "put_att", "v": 0, "name": "big", "norm": "big", "xtype": "char", "itype": "text", "vals": "z" * 2100, "n": 2100})
-                    if delta in ("fixvar", "both"):
-                        st.append({"op": "def_var", "name": "f2", "norm": "f2", "xtype": "double", "dims": [2, 1]})
-                        tr.vars.append(["f2", "double", [2, 1]])
-                    if delta in ("recvar", "both"):
-                        st.append({"op": "def_var", "name": "r3", "norm": "r3", "xtype": "int", "dims": [0, 1]})
-                        tr.vars.append(["r3", "int", [0, 1]])
-                    st.append({"op": "enddef"})
-                    tr.mode = "data"
-                    st += tr.read_all()
-                    st.append({"op": "close"})
-                    for s in st:
-                        s.setdefault("obs", O)
-                    ex.append({"x": "g%d" % n, "np": np_, "steps": st, "lenv": {"PNETCDF_VERIF_MOVE_UNIT": mu} if mu else None})
-                    n += 1
+                  for gap, fillnew in [(False, False), (True, False), (False, True), (True, True)]:
+                      if tier == "quick" and rng.random() < 0.8:
+                          continue
+                      cm = ["CLOBBER"] + ([filegen.FMT[fmt]] if filegen.FMT[fmt] else [])
+                      O = filegen.OBS
+                      st = [{"op": "create", "path": "a.nc", "cmode": cm, "fmtno": fmt, "obs": ["exists"],
+                             "info": {"nc_header_align_size": "4", "nc_record_align_size": "4"} if n % 2 else None},
+                            {"op": "def_dim", "name": "t", "norm": "t", "len": 0}, {"op": "def_dim", "name": "x", "norm": "x", "len": 3},
+                            {"op": "def_dim", "name": "y", "norm": "y", "len": 5},
+                            {"op": "def_var", "name": "f1", "norm": "f1", "xtype": "int", "dims": [2]},
+                            {"op": "def_var", "name": "r1", "norm": "r1", "xtype": "short", "dims": [0, 1]}]
+                      if nrecvars == 2:
+                          st.append({"op": "def_var", "name": "r2", "norm": "r2", "xtype": "double", "dims": [0, 2]})
+                      if gap:   # free space between the fixed and the record section: header growth is absorbed there
+                          st.append({"op": "_enddef", "h_minfree": 0, "v_align": 4, "v_minfree": 400, "r_align": 4, "want_h_align": 0, "want_r_align": 0})
+                      else:
+                          st.append({"op": "enddef", "want_h_align": 0, "want_r_align": 0})
+                      tr = filegen.Translator(rng, fmt=fmt, np=np_)
+                      tr.dims = [["t", 0], ["x", 3], ["y", 5]]
+                      tr.vars = [["f1", "int", [2]], ["r1", "short", [0, 1]]] + ([["r2", "double", [0, 2]]] if nrecvars == 2 else [])
+                      tr.mode = "data"
+                      tok = 1
+                      st.append(tr.put_step(0, 0, [tok + k for k in range(5)]))
+                      nrec = rng.choice([2, 3, 4])
+                      for r in range(nrec):
+                          tok += 10
+                          st.append(tr.put_step(1, r, [tok + k for k in range(3)]))
+                          if nrecvars == 2:
+                              st.append(tr.put_step(2, r, [tok + 5 + k for k in range(5)]))
+                      tr.numrecs = nrec
+                      st.append({"op": "redef"})
+                      if delta == "att_mid_recvar":
+                          st.append({"op": "put_att", "v": -1, "name": "mid", "norm": "mid", "xtype": "char", "itype": "text", "vals": "m" * 160, "n": 160})
+                      if fillnew:
+                          st.append({"op": "set_fill", "fill": "FILL"})
+                      if delta in ("att_small", "both"):
+                          st.append({"op": "put_att", "v": -1, "name": "g", "norm": "g", "xtype": "char", "itype": "text", "vals": "abcdefgh", "n": 8})
+                      if delta == "att_big":
+                          st.append({"op": "put_att", "v": 0, "name": "big", "norm": "big", "xtype": "char", "itype": "text", "vals": "z" * 2100, "n": 2100})
+                      if delta in ("fixvar", "both"):
+                          st.append({"op": "def_var", "name": "f2", "norm": "f2", "xtype": "double", "dims": [2, 1]})
+                          tr.vars.append(["f2", "double", [2, 1]])
+                      if delta in ("recvar", "both", "att_mid_recvar"):
+                          st.append({"op": "def_var", "name": "r3", "norm": "r3", "xtype": "int", "dims": [0, 1]})
+                          tr.vars.append(["r3", "int", [0, 1]])
+                      st.append({"op": "enddef"})
+                      tr.mode = "data"
+                      st += tr.read_all()
+                      st.append({"op": "close"})
+                      for s in st:
+                          s.setdefault("obs", O)
+                      ex.append({"x": "g%d" % n, "np": np_, "steps": st, "lenv": {"PNETCDF_VERIF_MOVE_UNIT": mu} if mu else None})
+                      n += 1
     return ex
 
 
